@@ -73,6 +73,7 @@ static int call_ret[MAXT + 1][16];
 static volatile int release_all;       /* set when a schedule turns out not to be executable: everybody runs freely from then on */
 static void park(int st) { state[me] = st; if (release_all) return; sem_post(&parked); sem_wait(&go[me]); }
 
+static int probe_k, probe_acq; static sem_t probe_hit, probe_go; static volatile int fork_returned;
 int pthread_mutex_lock(pthread_mutex_t *m)
 {
     if (m == &snoopy_tsrm_threadRepo_mutex && me) {
@@ -80,6 +81,12 @@ int pthread_mutex_lock(pthread_mutex_t *m)
             const char *k = kind_hint ? kind_hint : "lookup";
             if (kind_hint && !strcmp(kind_hint, "dtor")) k = dtor_locks++ == 0 ? "dtorfind" : "dtorremove";
             snprintf(measured + strlen(measured), sizeof measured - strlen(measured), "%s\"%s\"", measured[0] ? "," : "", k);
+        } else if (probe_k) {
+            int r0 = __pthread_mutex_lock(m);
+            holder = me;
+            /* fork probe: thread 1 stops right AFTER its K-th acquisition (lock held, section body not yet run) until the main thread lets it go */
+            if (me == 1 && ++probe_acq == probe_k) { sem_post(&probe_hit); sem_wait(&probe_go); }
+            return r0;
         } else if (!free_run) {
             park(ST_WANT);
         }
@@ -92,7 +99,7 @@ int pthread_mutex_lock(pthread_mutex_t *m)
 int pthread_mutex_unlock(pthread_mutex_t *m)
 {
     if (m == &snoopy_tsrm_threadRepo_mutex && me) {
-        if (!mode_measure && !free_run) park(ST_HOLD);
+        if (!mode_measure && !free_run && !probe_k) park(ST_HOLD);
         holder = 0;
     }
     return __pthread_mutex_unlock(m);
@@ -103,7 +110,7 @@ static __thread int in_call;
 ssize_t write(int fd, const void *buf, size_t n)
 {
     if (!real_write) { resolve(); }
-    if (me && in_call && fd > 2 && !free_run) {
+    if (me && in_call && fd > 2 && !free_run && !probe_k) {
         if (mode_measure) { snprintf(measured + strlen(measured), sizeof measured - strlen(measured), "%s\"io\"", measured[0] ? "," : ""); return real_write(fd, buf, n); }
         park(ST_WANT);
         ssize_t r = real_write(fd, buf, n);
@@ -120,7 +127,7 @@ int open(const char *path, int flags, ...)
     mode_t mode = 0;
     if (flags & (O_CREAT | O_TMPFILE)) { va_list ap; va_start(ap, flags); mode = (mode_t) va_arg(ap, int); va_end(ap); }
     if (!real_open) real_open = dlsym(RTLD_NEXT, "open");
-    if (me && in_call && !free_run) {
+    if (me && in_call && !free_run && !probe_k) {
         if (mode_measure) { snprintf(measured + strlen(measured), sizeof measured - strlen(measured), "%s\"io\"", measured[0] ? "," : ""); return real_open(path, flags, mode); }
         park(ST_WANT);
         int r = real_open(path, flags, mode);
@@ -134,7 +141,7 @@ int open(const char *path, int flags, ...)
 int close(int fd)
 {
     if (!real_close) { resolve(); }
-    if (me && in_call && fd > 2 && !free_run) {
+    if (me && in_call && fd > 2 && !free_run && !probe_k) {
         if (mode_measure) { snprintf(measured + strlen(measured), sizeof measured - strlen(measured), "%s\"io\"", measured[0] ? "," : ""); return real_close(fd); }
         park(ST_WANT);
         int r = real_close(fd);
@@ -167,8 +174,9 @@ static void do_fork(int t)
 {
     int pfd[2]; if (pipe(pfd)) {}
     pid_t p = fork();
+    fork_returned = 1;
     if (p == 0) {
-        free_run = 1; close(pfd[0]);
+        free_run = 1; probe_k = 0; close(pfd[0]);
         alarm(20);
         char b[32]; int n, e = 0;
         /* a grandchild: the child forks again and the grandchild execs too. Variant 0: the child execs first; variant 1 (odd schedules): the child
@@ -201,6 +209,8 @@ static void do_fork(int t)
     kill(p, SIGKILL); waitpid(p, NULL, 0); close(pfd[0]);
 }
 
+static void *probe_caller(void *arg) { (void) arg; me = 1; call_ret[1][1] = do_call(1, 1); return NULL; }
+static void *probe_forker(void *arg) { (void) arg; me = 2; do_fork(2); return NULL; }
 static void *worker(void *arg)
 {
     me = (int) (long) arg;
@@ -297,6 +307,26 @@ int main(int argc, char **argv)
         do_call(1, 1);
         printf("[%s]\n", measured);
         return 0;
+    }
+    if (!strcmp(argv[1], "forkprobe")) {
+        /* tsdrv forkprobe ini log K warm variant: thread 1 makes a call and is stopped right after its K-th acquisition of the repository mutex;
+           thread 2 (which has never called the library) then forks, the child (and a grandchild) exec. The specification (Tsrm!ForkStart/ForkLock,
+           AtFork = "locked") lets the fork proceed only once the mutex is free; whatever the code does, the child's exec calls must complete. */
+        int K = atoi(argv[4]), warm = argc > 5 ? atoi(argv[5]) : 0; fork_variant = argc > 6 ? atoi(argv[6]) : 0;
+        if (warm) { me = 0; char *a0[] = { "warm", NULL }; execv("/nonexistent/warm", a0); }
+        sem_init(&probe_hit, 0, 0); sem_init(&probe_go, 0, 0); sem_init(&parked, 0, 0);
+        nthreads = 2; ncalls = 1; probe_k = K;
+        pthread_t a, f;
+        pthread_create(&a, NULL, probe_caller, NULL);
+        struct timespec ts; clock_gettime(CLOCK_REALTIME, &ts); ts.tv_sec += 10;
+        if (sem_timedwait(&probe_hit, &ts) != 0) { printf("{\"k\":%d,\"reached\":0}\n", K); fflush(stdout); _exit(0); }
+        pthread_create(&f, NULL, probe_forker, NULL);
+        int early = 0; for (int i = 0; i < 40 && !early; i++) { usleep(10000); early = fork_returned; }      /* 400 ms: did fork() return while the mutex was held? */
+        sem_post(&probe_go);
+        pthread_join(f, NULL); pthread_join(a, NULL);
+        printf("{\"k\":%d,\"reached\":1,\"warm\":%d,\"variant\":%d,\"fork_returned_while_held\":%d,\"child\":%d,\"note\":\"%s\",\"caller_ret\":%d}\n",
+               K, warm, fork_variant, early, child_status[2], child_note[2], call_ret[1][1]);
+        fflush(stdout); _exit(0);
     }
     FILE *in = fopen(argv[4], "r"), *out = fopen(argv[5], "a");
     if (!in || !out) { perror("open"); return 2; }
